@@ -10,10 +10,17 @@ def status (p : Proc) : String :=
   match p.pc with
   | .done => "done" | .failed => "failed" | .running => "running" | _ => "active"
 
+/-- the addresses `get_fmmu_addr` returned (count : first : last : sum), observable once the body has made its calls -/
+def showGiven (p : Proc) : String :=
+  if p.pc == .running then
+    let g := givenAddrs p
+    s!"{g.length}:{g.headD 0}:{g.getLastD 0}:{g.foldl (· + ·) 0}"
+  else "-"
+
 /-- the process number is observable on the real object once `FMMULock(...)` has returned -/
 def showProc (p : Proc) : String :=
   let no := if p.trace.contains "fm_write" || p.trace.contains "fm_unlock" then p.fmNo else 0
-  joinSp p.trace ++ s!" # {status p} et={p.et} no={no} progs={optS p.progs}"
+  joinSp p.trace ++ s!" # {status p} et={p.et} no={no} progs={optS p.progs} ga={showGiven p}"
 
 def showDir : Option (List (Nat × Nat)) → String
   | none => "-"
